@@ -123,6 +123,14 @@ fn case_json(t: &E, o: &E) -> Value {
 }
 pub fn replay(case: &Value) -> Result<Verdict, String> {
     match case["kind"].as_str() {
+        Some("history") => {
+            let steps = case["steps"].as_array().ok_or("steps")?.iter().map(|s| match s.as_str() {
+                Some("next-second") => Ok(Step::NextSecond),
+                Some(t) => term::decode_expr(t).map(Step::Compile),
+                None => Err("bad step".to_string()),
+            }).collect::<Result<Vec<_>, _>>()?;
+            Ok(judge_history(&steps))
+        }
         Some("cross-process") => {
             let text = case["input"].as_str().ok_or("input")?;
             let r = cross_process(&[text.to_string()], 3);
@@ -205,6 +213,90 @@ pub fn cross_process(texts: &[String], procs: usize) -> Result<usize, String> {
     result
 }
 
+#[derive(Debug, Clone, Hash)]
+pub enum Step {
+    Compile(E),
+    /// wait until the wall clock has moved into the next second
+    NextSecond,
+}
+
+/// One history on one thread: compile calls (some failing after a time test was emitted) with
+/// the wall clock advancing in between. Every embedded second must lie inside its own call.
+pub fn judge_history(steps: &[Step]) -> Verdict {
+    let opts = RunOptions::default();
+    let mut crossed = false;
+    let mut after_failure = false;
+    let mut failed_with_time_before = false;
+    for (i, st) in steps.iter().enumerate() {
+        match st {
+            Step::NextSecond => {
+                let t = now_secs();
+                while now_secs() == t {
+                    std::thread::sleep(std::time::Duration::from_millis(20));
+                }
+                std::thread::sleep(std::time::Duration::from_millis(30));
+                crossed = true;
+                if failed_with_time_before {
+                    after_failure = true;
+                }
+            }
+            Step::Compile(e) => {
+                let x = to_ast(e);
+                let t0 = now_secs() as i128;
+                let r = match catch(|| compile(&x, &opts).map(|c| c.scheme("/dev/x"))) {
+                    Ok(r) => r,
+                    Err(p) => return Verdict::Fail(format!("compile panicked at step {i}: {p}")),
+                };
+                let t1 = now_secs() as i128;
+                match r {
+                    Err(_) => {
+                        if e.leaves().iter().any(|l| matches!(l, E::T(Tst::Time(..)))) {
+                            failed_with_time_before = true;
+                        }
+                    }
+                    Ok(prog) => {
+                        let forms = match sx::read_all(&prog) {
+                            Ok(f) => f,
+                            Err(e) => return Verdict::Fail(format!("program does not read: {e}")),
+                        };
+                        for ep in embedded_epochs(&forms) {
+                            if ep < t0 || ep > t1 {
+                                return Verdict::Fail(format!(
+                                    "history step {i}: the embedded second {ep} lies outside its compile call [{t0}, {t1}] (history: {} compile calls, clock advanced: {crossed}, an earlier compile with a time test had failed: {failed_with_time_before})",
+                                    steps.iter().filter(|s| matches!(s, Step::Compile(_))).count()
+                                ));
+                            }
+                        }
+                    }
+                }
+            }
+        }
+    }
+    Verdict::Pass { nt: crossed && after_failure, class: "history with the clock advancing between compile calls" }
+}
+
+fn history_json(steps: &[Step]) -> Value {
+    json!({"kind": "history", "steps": steps.iter().map(|s| match s { Step::NextSecond => json!("next-second"), Step::Compile(e) => json!(term::encode_expr(e)) }).collect::<Vec<_>>()})
+}
+
+fn history_strategy() -> BoxedStrategy<Vec<Step>> {
+    let time_test = || (gen::which(), gen::cmp(), 0u64..100, gen::tunit()).prop_map(|(w, c, n, u)| E::T(Tst::Time(w, c, n, u)));
+    let ok_with_time = (time_test(), gen::supported_leaf()).prop_map(|(t, l)| E::and(t, l));
+    let failing_after_time = (time_test(), gen::unsupported_test()).prop_map(|(t, u)| E::and(t, E::T(u)));
+    let any = prop_oneof![2 => ok_with_time.clone(), 1 => failing_after_time.clone(), 1 => crate::checks::c12::full_leaf()];
+    (proptest::collection::vec(any.clone(), 1..4), prop::bool::weighted(0.7), failing_after_time, proptest::collection::vec(prop_oneof![3 => ok_with_time, 1 => any], 2..5))
+        .prop_map(|(pre, end_with_failure, failing, post)| {
+            let mut steps: Vec<Step> = pre.into_iter().map(Step::Compile).collect();
+            if end_with_failure {
+                steps.push(Step::Compile(failing));
+            }
+            steps.push(Step::NextSecond);
+            steps.extend(post.into_iter().map(Step::Compile));
+            steps
+        })
+        .boxed()
+}
+
 pub fn run(ctx: &Ctx) -> Report {
     let cases = ctx.tier.pick(3_000u32, 60_000u32);
     let mut total = run_shards(16, |shard| {
@@ -213,6 +305,17 @@ pub fn run(ctx: &Ctx) -> Report {
         run_prop(&mut st, ctx.seed, "C15", shard as u64, cases / 16, &strat, |(a, b)| judge(a, b), |(a, b)| case_json(a, b));
         st
     });
+    // histories with the wall clock advancing (one sleep of at most ~1 s each, run in parallel)
+    let per_thread = ctx.tier.pick(2usize, 12usize);
+    let hist = run_shards(16, |shard| {
+        let mut st = Stats::new();
+        for h in sample_values(ctx.seed, "C15-history", shard as u64, per_thread, &history_strategy()) {
+            let v = judge_history(&h);
+            st.record(&v, stable_hash(&h), false, || history_json(&h));
+        }
+        st
+    });
+    total.merge(hist);
     // (b) fresh processes
     let n = ctx.tier.pick(2_000usize, 30_000usize);
     let trees = sample_values(ctx.seed, "C15-cross", 0, n, &resource_rich());
@@ -234,7 +337,7 @@ pub fn run(ctx: &Ctx) -> Report {
     total.samples.truncate(6);
     Report {
         stats: total,
-        rule: "random expressions biased to 8..40 distinct matchers/printers (so that hash-table iteration order would show). (a) in one process: parsing the text twice gives equal results; compiling e1, an unrelated e2, then e1 again gives byte-identical programs (embedded epoch normalised) and equal destination tables; (b) the same texts are parsed and compiled in three fresh processes (fresh hash seeds) and the canonical records must be identical to this process's; (c) every wall-clock second embedded by a time test lies between clock readings taken around the compile call. Non-trivial: >=8 matcher/printer requests. Distinct: by (tree pair) / input text.".into(),
+        rule: "random expressions biased to 8..40 distinct matchers/printers (so that hash-table iteration order would show). (a) in one process: parsing the text twice gives equal results; compiling e1, an unrelated e2, then e1 again gives byte-identical programs (embedded epoch normalised) and equal destination tables; (b) the same texts are parsed and compiled in three fresh processes (fresh hash seeds) and the canonical records must be identical to this process's; (c) every wall-clock second embedded by a time test lies between clock readings taken around the compile call, also in histories of compile calls on one thread in which earlier calls fail after a time test was emitted and the wall clock moves into the next second in between (32 such histories in the quick tier). Non-trivial: >=8 matcher/printer requests. Distinct: by (tree pair) / input text.".into(),
         assumptions: vec!["the embedded second is recognised as the first operand of (- N (atime|ctime|mtime))".into()],
         exhaustive: false,
     }
